@@ -51,8 +51,8 @@ PROPS = {
                        "discharged obligation. Third sentence (rebuilt indexes answer as the originals), IB half: PROVED -- Verus unit c07_ib puts the real "
                        "JsonIndex::from_parts under contract (stores exactly the given words and length, rank directory == cumulative popcount, "
                        "invariant ib_wf) and every IB query is proved to depend on (ib, ib_len) only; a bounded Kani companion replays it on "
-                       "two-word bitmaps. BP half: BalancedParens::from_words is not under contract (the searches' contracts of C04 depend on "
-                       "words/len and the directories that build_bp_index derives from them).",
+                       "two-word bitmaps. BP half: BalancedParens::from_words is under contract in unit c04_build (stores the given words and length and "
+                       "the directories build_bp_index derives from them, field by field, exactly as `new` does for masked words).",
         "technique": "bounded stand-in of the contract family (Kani/CBMC harnesses over all inputs within a stated length bound); no unbounded contract within reach, see explanation",
         "trusted_base": COMMON_TRUST + ["CBMC's pointer model: the byte buffer object is at least 8-aligned, so slice offsets 0..8 enumerate all alignments (checked by the aligned/misaligned harness pair)"],
         "assumptions": ["word-vector length <= 4 in the harness arrays (alignment and length arithmetic: all cases)"],
